@@ -289,6 +289,31 @@ class RefMap:
         return "real:nan" if c04.is_nan_pattern(t, f) else f"real:{f}"
 
 
+def canon_model(op, out):
+    """REAL read-backs: the implementation hands over a float, so NaN patterns are printed as 'nan' on both sides"""
+    if "real:" not in out:
+        return out
+    a = op.split(" ")
+    toks, outs = a[3].split("|"), out.split("|")
+    if len(toks) != len(outs):
+        return out
+    prod, cons = parse_maps(a[1]), parse_maps(a[2])
+    for i, (tok, o) in enumerate(zip(toks, outs)):
+        p = tok.split(".")
+        if p[0] not in ("r", "p") or "real:" not in o or "@" not in o:
+            continue
+        lay = (cons if p[0] == "r" else prod)[int(p[1])][3]
+        head, rest = o.split("@", 1)
+        vals = head.split(",")
+        if len(vals) != len(lay):
+            continue
+        for j, (v, (t, _l)) in enumerate(zip(vals, lay)):
+            if v.startswith("real:") and v[5:].isdigit() and t in c04.REALS and c04.is_nan_pattern(t, int(v[5:])):
+                vals[j] = "real:nan"
+        outs[i] = ",".join(vals) + "@" + rest
+    return "|".join(outs)
+
+
 def oracle(op, out):
     a = op.split(" ")
     prod = [RefMap(m) for m in parse_maps(a[1])]
